@@ -35,9 +35,8 @@ GROUPS = [
      dict(accept_regex=r'/(dir|pub|$)', reject_regex=r'priv|\.zip')),
     ('directories', ['-I', '/pub,/di*', '-X', '/dir/priv'],
      dict(include_directories=['/pub', '/di*'], exclude_directories=['/dir/priv'])),
-    # (-A and -R are separate parameterisations: wpull's -R lacks comma-list parsing and
-    # rejects nearly everything, which would mask what -A lets through)
-    ('filename', ['-A', 'html,*.png,in*'], dict(accept=['html', '*.png', 'in*'])),
+    ('filename', ['-A', 'html,*.png,in*', '-R', 'bad*,.r[0-9][0-9],zip'],
+     dict(accept=['html', '*.png', 'in*'], reject=['bad*', '.r[0-9][0-9]', 'zip'])),
     ('span', ['--span-hosts-allow', 'page-requisites,linked-pages'],
      dict(span_allow_requisites=True, span_allow_linked=True)),
 ]
@@ -45,7 +44,7 @@ ALT = {   # second parameterisation of some groups
     'tries': (['--tries', '0'], dict(tries=0)),
     'level': (['-l', '0'], dict(level=0, page_requisites_level=5)),
     'span': (['--span-hosts'], dict(span_hosts=True)),
-    'filename': (['-R', 'zip,bad*'], dict(reject=['zip', 'bad*'])),
+    'filename': (['-R', '.r[0-9][0-9],zip'], dict(reject=['.r[0-9][0-9]', 'zip'])),
     'regex': (['--reject-regex', 'x'], dict(reject_regex='x')),
     'directories': (['-X', '/priv,/dir/p*'], dict(exclude_directories=['/priv', '/dir/p*'])),
 }
@@ -55,7 +54,8 @@ START_HOSTS = ['a.test']
 SCHEMES = ['http', 'https', 'ftp']
 HOSTS = ['a.test', 'b.test', 'x.a.test', 'c.test']
 PATHS = ['/', '/dir/', '/dir/index.html', '/dir/priv/f.zip', '/pub/pic.png', '/other',
-         '/dir/sub/bad.html', '/dirx/q.html', '/dir/main-index.txt']
+         '/dir/sub/bad.html', '/dirx/q.html', '/dir/main-index.txt', '/pub/archive.r07',
+         '/dir/page.r07.html']
 PORTS = [None, 8080]
 NAMEMAP = {'SchemeFilter': 'scheme', 'HTTPSOnlyFilter': 'scheme',
            'RecursiveFilter': 'recursive', 'FollowFTPFilter': 'follow_ftp',
